@@ -454,14 +454,14 @@ def csr_assembly_rule(ctx):
     from ..repo import FuncInfo
 
     repo = ctx.repo
-    r = ctx.rule("R3.9", "cached-pattern assembly interpreted: the returned CSR equals the scatter-add of the element entries (two groups, a slot absent for one group, matrix and vector slots, repeated assembly through the memoised map)", min_instances=18)
+    r = ctx.rule("R3.9", "cached-pattern assembly interpreted: the returned CSR equals the scatter-add of the element entries (two and three groups of different sizes, a slot absent for one group, matrix and vector slots, real / complex mixes, repeated assembly through the memoised map, magnitudes written in the source scaled down)", min_instances=30)
     simu = repo.cls(SIMU)
     fA = repo.lookup_method(simu, simu.mangle("__Assemble_csr"))
     fM = repo.lookup_method(simu, simu.mangle("__Get_csr_map"))
     ge = repo.cls(GE)
     frows, fcols, fasm = (repo.method(GE, n) for n in ("Get_rows_e", "Get_columns_e", "Get_assembly_e"))
     dof_n = 2
-    conns = {"A": [[0, 1, 2], [1, 3, 2]], "B": [[2, 3, 4, 5]]}
+    conns = {"A": [[0, 1, 2], [1, 3, 2]], "B": [[2, 3, 4, 5]], "C": [[4, 5], [0, 4], [5, 1]]}
     Nn = 6
     Ndof = Nn * dof_n
 
@@ -469,9 +469,9 @@ def csr_assembly_rule(ctx):
         conn = conns[tag]
         nPe = len(conn[0])
         c = XArray((len(conn), nPe), [n for row in conn for n in row])
-        return XObj(ge, {"nPe": nPe, "Ne": len(conn), "connect": c, ge.mangle("__connect"): c, "tag": tag, "elemType": "TRI3" if tag == "A" else "QUAD4"})
+        return XObj(ge, {"nPe": nPe, "Ne": len(conn), "connect": c, ge.mangle("__connect"): c, "tag": tag, "elemType": {"A": "TRI3", "B": "QUAD4", "C": "SEG2"}[tag]})
 
-    gA, gB = group("A"), group("B")
+    G = {t: group(t) for t in conns}
     memo = {}
 
     def hook(fn, args, kwargs):
@@ -491,7 +491,7 @@ def csr_assembly_rule(ctx):
     obj = XObj(simu, {})
 
     def entries(tag, isMatrix, rep, cx=False):
-        g = gA if tag == "A" else gB
+        g = G[tag]
         n = g.attrs["nPe"] * dof_n
         if cx:
             # complex element entries: x + I y with the formal imaginary unit
@@ -512,13 +512,25 @@ def csr_assembly_rule(ctx):
     cases = [("matrix, both groups", True, ("A", "B"), False), ("matrix, second group absent (None)", True, ("A",), False), ("matrix, first group absent (None)", True, ("B",), False), ("vector, both groups", False, ("A", "B"), False),
              ("complex matrix, both groups", True, ("A", "B"), True), ("complex vector, both groups", False, ("A", "B"), True),
              # one slot fed by a real group and a complex group (a real bulk operator plus a complex boundary operator)
-             ("real group A + complex group B, matrix", True, ("A", "B"), ("B",)), ("complex group A + real group B, matrix", True, ("A", "B"), ("A",)), ("real group A + complex group B, vector", False, ("A", "B"), ("B",))]
-    for label, isMatrix, present, cx in cases:
+             ("real group A + complex group B, matrix", True, ("A", "B"), ("B",)), ("complex group A + real group B, matrix", True, ("A", "B"), ("A",)), ("real group A + complex group B, vector", False, ("A", "B"), ("B",)),
+             # three groups of three different sizes feed one slot (bulk + two boundary groups)
+             ("matrix, three groups", True, ("A", "B", "C"), False), ("vector, three groups", False, ("A", "B", "C"), False), ("matrix, three groups, the middle one absent", True, ("A", "C"), False),
+             ("matrix, three groups, the last complex", True, ("A", "B", "C"), ("C",)),
+             # the same with every magnitude written in the source (block, buffer, batch sizes) scaled down to 3: what is
+             # assembled does not depend on such a constant
+             ("matrix, three groups, source magnitudes scaled to 3", True, ("A", "B", "C"), False, True), ("vector, three groups, source magnitudes scaled to 3", False, ("A", "B", "C"), False, True)]
+    for label, isMatrix, present, cx, *scaled in cases:
         for rep in (0, 1):  # the second pass reuses the memoised map
             r.instance(fn=fA.qualname)
             data = {}
-            for tag, g in (("A", gA), ("B", gB)):
+            three = "three" in label
+            for tag, g in G.items():
+                if tag == "C" and not three:
+                    continue
                 data[g] = entries(tag, isMatrix, rep, (cx is True) or (isinstance(cx, tuple) and tag in cx)) if tag in present else None
+            I.size_literal = (lambda v: 3 if abs(v) >= 256 else v) if scaled else None
+            if scaled and rep == 0:
+                memo.clear()
             try:
                 M = I.call_function(fA, [data, dof_n, Ndof, isMatrix], self_obj=obj)
             except XRaise as e:
@@ -529,7 +541,7 @@ def csr_assembly_rule(ctx):
                 continue
             want = {}
             for tag in present:
-                g = gA if tag == "A" else gB
+                g = G[tag]
                 X = data[g]
                 n = g.attrs["nPe"] * dof_n
                 for e in range(g.attrs["Ne"]):
